@@ -632,7 +632,9 @@ class EngineBase:
 
     def stubs(self):
         return ["listing order (seeded permutation)", "uuid4 / tempfile names (seeded)",
-                "file mtimes (simulated clock)", "fork as in-memory snapshot"]
+                "file and directory mtimes (simulated clock)", "fork as in-memory snapshot",
+                "threading.RLock in signac / synced_collections -> SimRLock",
+                "multiprocessing.pool.ThreadPool in signac.project / signac.sync -> SimPool"]
 
     def assumptions(self):
         return ["process-death crash model: completed kernel calls are durable; power loss not modelled",
